@@ -119,7 +119,7 @@ func ruleC08NewSize(e *Env) {
 		return []int{0, 1}
 	}
 	mk := func() []pred.Val { return []pred.Val{pred.Sym{Name: "value"}, pred.Sym{Name: "unit"}} }
-	leaves, err := extractTree(e.P.SSA, fn, mk, nil, nil, keyOf, domain)
+	leaves, err := extractTree(e.P.SSA, fn, e.Permuted("size", "newSize", fn, mk), nil, nil, keyOf, domain)
 	if err != nil {
 		e.S.Unk(rule, site, "table", err.Error(), e.Pos(fn))
 		return
@@ -228,7 +228,7 @@ func ruleC08Text(e *Env) {
 		return errKeyOf(a, b)
 	}
 	mk := func() []pred.Val { return []pred.Val{pred.Sym{Name: "input"}, pred.Sym{Name: "r"}} }
-	leaves, err := extractTree(e.P.SSA, fn, mk, sums, nil, keyOf, binDomain)
+	leaves, err := extractTree(e.P.SSA, fn, e.Permuted("size", "unmarshalText", fn, mk), sums, nil, keyOf, binDomain)
 	if err != nil {
 		e.S.Unk(rule, site, "table", err.Error(), e.Pos(fn))
 		return
@@ -559,19 +559,23 @@ func ruleC08Object(e *Env) {
 	{
 		site := flow.FnName(noe)
 		calls := e.C.Calls(noe, func(f *ssa.Function) bool { return flow.Origin(f) == ns })
-		if len(calls) != 1 {
-			e.S.Unk(rule, site, "newSize", fmt.Sprintf("%d calls to newSize, expected exactly one", len(calls)), e.Pos(noe))
+		if len(calls) == 0 {
+			e.S.Unk(rule, site, "newSize", "no call to newSize", e.Pos(noe))
 		} else {
-			c := calls[0]
-			ok := len(c.Call.Args) == 2
-			for i := 0; ok && i < 2; i++ {
-				u, isLoad := c.Call.Args[i].(*ssa.UnOp)
-				ok = isLoad && u.Op == token.MUL && u.X == ssa.Value(noe.Params[i])
+			// every call (a fast path may duplicate it) takes exactly the two dereferenced parameters
+			ok := true
+			for _, c := range calls {
+				okc := len(c.Call.Args) == 2
+				for i := 0; okc && i < 2; i++ {
+					u, isLoad := c.Call.Args[i].(*ssa.UnOp)
+					okc = isLoad && u.Op == token.MUL && u.X == ssa.Value(noe.Params[i])
+				}
+				ok = ok && okc
 			}
 			if ok {
-				e.S.Ok(rule, site, "newSize", "newSize(*value, *unit) with the two parameters", e.posOf(c))
+				e.S.Ok(rule, site, "newSize", "newSize(*value, *unit) with the two parameters", e.posOf(calls[0]))
 			} else {
-				e.S.Bad(rule, site, "newSize", "newSize is not applied to (*value, *unit)", e.posOf(c), "")
+				e.S.Bad(rule, site, "newSize", "newSize is not applied to (*value, *unit)", e.posOf(calls[0]), "")
 			}
 		}
 	}
